@@ -77,6 +77,12 @@ Section DocProofs.
       unfold default_width, default_indent. rewrite H0. reflexivity.
     - run H. reflexivity.
     - run H. destruct H0 as [->|[[n ->] ->]]; reflexivity.
+    - cbn [Bst.builtin_step].
+      assert (P : print_all (st_stack st) = Ok (concat (map (fun t => t ++ [c_nl]) ts))).
+      { induction H as [|v t l ts' Hv _ IHl]; [reflexivity|]. cbn [print_all map concat].
+        assert (Pv : py_str v = Ok t) by (destruct Hv as [(z & -> & ->)|[->|[[n ->] ->]]]; reflexivity).
+        rewrite Pv, IHl. cbn. rewrite <- app_assoc. reflexivity. }
+      rewrite P. reflexivity.
     - run H. reflexivity.
   Qed.
 End DocProofs.
@@ -112,9 +118,11 @@ Section DocSound.
   Variable cw : char -> Z.
   Variable G : list (str * obj).
   Variable ent : bool.
+  Variable tys : list str.
   Variable rec : state -> list instr -> res state.
   Variable wh : state -> value -> value -> res state.
   Variable call : list aval -> aval -> option (list aval).
+  Variable cid : list aval -> str -> option (list aval).
   Notation bs := (builtin_step fmt_name cw rec wh).
   Notation doc := (builtin_doc fmt_name cw).
 
@@ -139,8 +147,8 @@ Section DocSound.
   (* on operands of the kinds the type checker accepts, a successful step of a code-free built-in is exactly
      the documented rule *)
   Lemma doc_sound_step b s s1 st st' :
-    check_builtin G ent call b s = Some s1 -> control b = false ->
-    state_ok G ent st -> sabs (st_stack st) s ->
+    check_builtin G ent tys call cid b s = Some s1 -> control b = false ->
+    state_ok G ent tys st -> sabs (st_stack st) s ->
     bs b st = Ok st' -> doc b st st'.
   Proof.
     intros C Ctl Hok Hs H. destruct b; try discriminate Ctl.
@@ -176,15 +184,15 @@ Section DocSound.
       cbn [Bst.builtin_step]. rewrite (pop_cons _ _ _ E1). cbn [bind]. rewrite pop_set_stack. cbn [bind].
       unfold assign. change (st_vars (set_stack st l2)) with (st_vars st).
       destruct (alookup str_eqb nm G) as [o|] eqn:EG; [|discriminate C].
-      destruct (G_lookup G ent st nm o Hok EG) as (o' & Eo & K). rewrite Eo.
+      destruct (G_lookup G ent tys st nm o Hok EG) as (o' & Eo & K). rewrite Eo.
       destruct o as [bb|vv|vv|en|en|fn| |fb]; try discriminate C; cbn in K.
       + destruct K as [z0 ->]. cond C. as_int V2 B. intros H. okinv H. by_rule D_assign_int.
       + destruct K as (v0 & -> & Sv0). cond C. as_sv V2 B sa Sa Aa. rewrite Aa. intros H. okinv H.
         by_rule D_assign_str.
-      + subst o'. cond C. as_int V2 H0. destruct (ok_ent G ent st Hok H) as [(key & e & Ec) _].
+      + subst o'. cond C. as_int V2 H0. destruct (ok_ent G ent tys st Hok H) as [(key & e & Ec & Ety) _].
         change (st_cur (set_stack st l2)) with (st_cur st). rewrite Ec. intros H1. okinv H1.
         by_rule D_assign_eint.
-      + subst o'. cond C. as_sv V2 H0 sa Sa Aa. rewrite Aa. destruct (ok_ent G ent st Hok H) as [(key & e & Ec) _].
+      + subst o'. cond C. as_sv V2 H0 sa Sa Aa. rewrite Aa. destruct (ok_ent G ent tys st Hok H) as [(key & e & Ec & Ety) _].
         change (st_cur (set_stack st l2)) with (st_cur st). rewrite Ec. intros H1. okinv H1.
         by_rule D_assign_estr.
     - (* + *) destruct s as [|x [|y r]]; cbn in C; try discriminate C;
@@ -224,7 +232,7 @@ Section DocSound.
       cbn [Bst.builtin_step]; rewrite (pop_cons _ _ _ E1); cbn [bind]; intros H.
       cond C. as_sv V1 B sa Sa Aa. rewrite Aa in H. destruct sa as [|c [|c2 sa]]; try discriminate H. okinv H.
       destruct Sa as [->|[_ Q]]; [|discriminate Q]. by_rule D_chr_to_int.
-    - (* cite$ *) cbn in C. cond C. destruct (ok_ent _ _ _ Hok eq_refl) as [(key & e & Ec) _].
+    - (* cite$ *) cbn in C. cond C. destruct (ok_ent _ _ _ _ Hok eq_refl) as [(key & e & Ec & Ety) _].
       cbn in H. rewrite Ec in H. okinv H. by_rule D_cite.
     - (* duplicate$ *) destruct s as [|x r]; cbn in C; try discriminate C;
       pop1 Hs v1 l1 E1 V1 Hs1; revert H;
@@ -264,7 +272,7 @@ Section DocSound.
       cond C. as_sv V1 B sa Sa Aa. okinv H. by_rule D_missing.
     - (* newline$ *) cbn in C. clear C. cbn [Bst.builtin_step] in H. unfold do_newline in H.
       assert (J : exists ss, all_strs (st_buf st) ss).
-      { clear H. pose proof (ok_buf G ent st Hok) as Bf. induction Bf as [|v b Sv _ IHb]; [exists []; constructor|].
+      { clear H. pose proof (ok_buf G ent tys st Hok) as Bf. induction Bf as [|v b Sv _ IHb]; [exists []; constructor|].
         destruct (strlike_str_of _ Sv) as (t & St & _). destruct IHb as [ss Hss]. exists (t :: ss). constructor; assumption. }
       destruct J as [ss Hss]. rewrite (join_buffer_all _ _ Hss) in H. cbn [bind] in H.
       unfold default_width, default_indent in H.
@@ -278,7 +286,7 @@ Section DocSound.
       pop1 Hs v1 l1 E1 V1 Hs1; revert H;
       cbn [Bst.builtin_step]; rewrite (pop_cons _ _ _ E1); cbn [bind]; intros H.
       okinv H. by_rule D_pop.
-    - (* preamble$ *) cbn in C. cond C. destruct (ok_ent _ _ _ Hok eq_refl) as [_ [d Ed]].
+    - (* preamble$ *) cbn in C. cond C. destruct (ok_ent _ _ _ _ Hok eq_refl) as [_ [d Ed]].
       cbn in H. rewrite Ed in H. okinv H. by_rule D_preamble.
     - (* purify$ *) destruct s as [|x r]; cbn in C; try discriminate C;
       pop1 Hs v1 l1 E1 V1 Hs1; revert H;
@@ -295,7 +303,18 @@ Section DocSound.
       { rewrite <- H. destruct z0; [|rewrite Aa; reflexivity|rewrite Aa; reflexivity].
         Transparent bibtex_substring. reflexivity. Opaque bibtex_substring. }
       okinv H'. by_rule D_substring.
-    - (* stack$ *) discriminate C.
+    - (* stack$ *) cbn in C. cond C. cbn [Bst.builtin_step] in H.
+      assert (J : exists ts, Forall2 (prints_as) (st_stack st) ts /\ print_all (st_stack st) = Ok (concat (map (fun t => t ++ [c_nl]) ts))).
+      { clear H Hok. revert B. generalize (st_stack st) Hs. clear Hs. intros l Hl.
+        induction Hl as [|v a l s' Hv _ IHl]; cbn; intros B; [exists []; split; [constructor|reflexivity]|].
+        apply andb_prop in B as [B1 B2]. destruct (IHl B2) as (ts & F & Et). rewrite Et.
+        apply orb_prop in B1 as [B1|B1].
+        - destruct (vabs_int _ _ Hv B1) as [z ->]. exists (Z_to_str z :: ts). split; [constructor; [left; eauto|exact F]|].
+          cbn. rewrite <- app_assoc. reflexivity.
+        - destruct (strlike_str_of _ (vabs_str _ _ Hv B1)) as (t & St & At).
+          assert (Pv : py_str v = Ok t) by (destruct St as [->|[[n ->] ->]]; reflexivity).
+          exists (t :: ts). split; [constructor; [right; exact St|exact F]|]. rewrite Pv. cbn. rewrite <- app_assoc. reflexivity. }
+      destruct J as (ts & F & P). rewrite P in H. cbn in H. okinv H. by_rule D_stack.
     - (* swap$ *) destruct s as [|x [|y r]]; cbn in C; try discriminate C;
       pop1 Hs v1 l1 E1 V1 Hs1; pop1 Hs1 v2 l2 E2 V2 Hs2; subst l1; revert H;
       cbn [Bst.builtin_step]; rewrite (pop_cons _ _ _ E1); cbn [bind]; rewrite pop_set_stack; cbn [bind]; intros H.
@@ -320,7 +339,7 @@ Section DocSound.
       + as_sv V1 B sa Sa Aa.
         assert (Hp : py_str v1 = Ok sa) by (destruct Sa as [->|[[n ->] ->]]; reflexivity).
         rewrite Hp in H. cbn in H. okinv H. by_rule D_top_str.
-    - (* type$ *) cbn in C. cond C. destruct (ok_ent _ _ _ Hok eq_refl) as [(key & e & Ec) _].
+    - (* type$ *) cbn in C. cond C. destruct (ok_ent _ _ _ _ Hok eq_refl) as [(key & e & Ec & Ety) _].
       cbn in H. rewrite Ec in H. okinv H. by_rule D_type.
     - (* warning$ *) destruct s as [|x r]; cbn in C; try discriminate C;
       pop1 Hs v1 l1 E1 V1 Hs1; revert H;
